@@ -55,12 +55,56 @@ type sysRemote struct {
 	Delayed    func(ctx context.Context, tag int, cb cbI) (int, error)
 	CbFirst    func(ctx context.Context, tag int, cb cbI, v any) error
 	WhoAmI     func(ctx context.Context, tag int) (string, error)
-	Sub        struct {
+	// second generation of workloads
+	PartialStruct func(ctx context.Context, tag int, p Rec, msg string) (Rec, error)
+	FailConcrete  func(ctx context.Context, tag int, msg string) error
+	FailWrap      func(ctx context.Context, tag int, kind int) error
+	FailWrapVal   func(ctx context.Context, tag int, kind int) (int, error)
+	IterCtx       func(ctx context.Context, tag int, cb cbI) (string, error)
+	GateCtx       func(ctx context.Context, tag int) (int, error)
+	IterNamed     func(ctx context.Context, tag int, cb cbN) (string, error)
+	IterCount     func(ctx context.Context, tag int, cb cbC) (string, error)
+	EchoNamed     func(ctx context.Context, tag int, c Count, n Name) (Count, error)
+	Two           func(ctx context.Context, tag int, f cbI, g cbI) (string, error)
+	Sub           struct {
 		Deep struct {
 			Ping func(ctx context.Context, tag int) (int, error)
 		}
-		Ping func(ctx context.Context, tag int) (int, error)
+		Ping func(ctx context.Context, tag int) (int, error) // declared after a nested struct
 	}
+	After func(ctx context.Context, tag int) (int, error) // declared after a nested struct
+}
+
+// named non-struct types: kind-equal but not type-equal to what a serializer decodes generically
+type Count uint64
+type Name string
+type Ratio float64
+type Small int8
+type cbN = func(ctx context.Context, c Count, n Name, r Ratio, s Small) (Count, error)
+type cbC = func(ctx context.Context, c Count, s Small) (Count, error)
+
+// sysErr is a concrete error type (a handler may declare it instead of the error interface)
+type sysErr struct{ msg string }
+
+func (e *sysErr) Error() string { return e.msg }
+
+// wrapErr builds application errors that wrap sentinel errors panrpc itself uses internally
+func wrapErr(kind int) error {
+	switch kind % 7 {
+	case 0:
+		return fmt.Errorf("app step aborted: %w", context.Canceled)
+	case 1:
+		return fmt.Errorf("app deadline: %w", context.DeadlineExceeded)
+	case 2:
+		return fmt.Errorf("app input: %w", io.EOF)
+	case 3:
+		return fmt.Errorf("app input: %w", io.ErrUnexpectedEOF)
+	case 4:
+		return fmt.Errorf("app closure: %w", rpc.ErrClosureDoesNotExist)
+	case 5:
+		return errors.Join(errors.New("first"), context.Canceled)
+	}
+	return context.Canceled
 }
 
 type SysEvent struct {
@@ -285,12 +329,116 @@ func (l *sysLocal) Delayed(ctx context.Context, tag int, cb cbI) (int, error) {
 	case <-time.After(20 * time.Second):
 		return -1, errors.New("gate timeout")
 	}
-	return cb(ctx, tag)
+	v, err := cb(ctx, tag)
+	l.w.log(SysEvent{Node: l.node, Kind: "ret", Method: "Delayed", Tag: tag, Data: fmt.Sprint(v), Err: errText(err)})
+	return v, err
 }
 func (l *sysLocal) CbFirst(ctx context.Context, tag int, cb cbI, v any) error {
 	l.inv(ctx, "CbFirst", tag, nil)
 	_, err := cb(ctx, tag)
 	return err
+}
+func (l *sysLocal) After(ctx context.Context, tag int) (int, error) {
+	l.inv(ctx, "After", tag, nil)
+	return tag + 3000, nil
+}
+func (l *sysLocal) PartialStruct(ctx context.Context, tag int, p Rec, msg string) (Rec, error) {
+	l.inv(ctx, "PartialStruct", tag, p)
+	return p, errors.New(msg)
+}
+func (l *sysLocal) FailConcrete(ctx context.Context, tag int, msg string) *sysErr {
+	l.inv(ctx, "FailConcrete", tag, msg)
+	if msg == "<nil>" {
+		return nil
+	}
+	return &sysErr{msg}
+}
+func (l *sysLocal) FailWrap(ctx context.Context, tag int, kind int) error {
+	l.inv(ctx, "FailWrap", tag, kind)
+	return wrapErr(kind)
+}
+func (l *sysLocal) FailWrapVal(ctx context.Context, tag int, kind int) (int, error) {
+	l.inv(ctx, "FailWrapVal", tag, kind)
+	return tag, wrapErr(kind)
+}
+
+// IterCtx invokes the peer's closure with a context of its own, cancels it once the closure is
+// running (the closure opens gate tag+1 when it starts), and then invokes the closure once more
+func (l *sysLocal) IterCtx(ctx context.Context, tag int, cb cbI) (string, error) {
+	l.inv(ctx, "IterCtx", tag, nil)
+	cctx, cancel := context.WithCancel(ctx)
+	defer cancel()
+	type r struct {
+		v   int
+		err error
+	}
+	done := make(chan r, 1)
+	go func() { v, err := cb(cctx, 1); done <- r{v, err} }()
+	select {
+	case <-l.w.gate(tag + 1):
+	case <-time.After(5 * time.Second):
+		return "closure never started", nil
+	}
+	cancel()
+	first := "DID-NOT-RETURN"
+	select {
+	case x := <-done:
+		first = fmt.Sprintf("%d/%s", x.v, errText(x.err))
+	case <-time.After(3 * time.Second):
+	}
+	v2, err2 := cb(ctx, 2)
+	return fmt.Sprintf("%s;%d/%s", first, v2, errText(err2)), nil
+}
+
+// GateCtx reports what its context says once its gate opens (the link may have ended meanwhile)
+func (l *sysLocal) GateCtx(ctx context.Context, tag int) (int, error) {
+	l.inv(ctx, "GateCtx", tag, nil)
+	select {
+	case <-l.w.gate(tag):
+	case <-time.After(20 * time.Second):
+		return -1, errors.New("gate timeout")
+	}
+	l.w.log(SysEvent{Node: l.node, Kind: "ctxerr", Method: "GateCtx", Tag: tag, Data: fmt.Sprint(ctx.Err())})
+	return tag, nil
+}
+func (l *sysLocal) IterNamed(ctx context.Context, tag int, cb cbN) (string, error) {
+	l.inv(ctx, "IterNamed", tag, nil)
+	var out []string
+	for i, a := range []struct {
+		c Count
+		n Name
+		r Ratio
+		s Small
+	}{{0, "", 0, 0}, {3, "nm", 0.5, -4}, {1 << 40, "ü\"q", -1.25, 127}} {
+		v, err := cb(ctx, a.c, a.n, a.r, a.s)
+		out = append(out, fmt.Sprintf("%d:%d/%s", i, v, errText(err)))
+	}
+	return strings.Join(out, ";"), nil
+}
+func (l *sysLocal) IterCount(ctx context.Context, tag int, cb cbC) (string, error) {
+	l.inv(ctx, "IterCount", tag, nil)
+	var out []string
+	for i, a := range []Count{0, 9, 1 << 33} {
+		v, err := cb(ctx, a, Small(i-1))
+		out = append(out, fmt.Sprintf("%d:%d/%s", i, v, errText(err)))
+	}
+	return strings.Join(out, ";"), nil
+}
+func (l *sysLocal) EchoNamed(ctx context.Context, tag int, c Count, n Name) (Count, error) {
+	l.inv(ctx, "EchoNamed", tag, []any{c, n})
+	return c + Count(len(n)), nil
+}
+
+// Two takes two closures and invokes them alternately: each must reach its own function
+func (l *sysLocal) Two(ctx context.Context, tag int, f cbI, g cbI) (string, error) {
+	l.inv(ctx, "Two", tag, nil)
+	var out []string
+	for i := 0; i < 3; i++ {
+		a, e1 := f(ctx, i)
+		b, e2 := g(ctx, i)
+		out = append(out, fmt.Sprintf("%d/%s,%d/%s", a, errText(e1), b, errText(e2)))
+	}
+	return strings.Join(out, ";"), nil
 }
 func (l *sysLocal) WhoAmI(ctx context.Context, tag int) (string, error) {
 	id := rpc.GetRemoteID(ctx)
